@@ -166,7 +166,7 @@ func runStage(prop, tier string, seed int64, st Stage) []childResult {
 			args := []string{"-prop", prop, "-mode", st.Mode, "-tier", tier,
 				"-seed", strconv.FormatInt(seed, 10), "-batch", strconv.Itoa(b), "-nbatch", strconv.Itoa(nb),
 				"-out", partPath, "-replays", replayDir,
-				"-known", filepath.Join(verifDir, "KNOWN_FINDINGS.jsonl")}
+				"-known", filepath.Join(verifDir, "KNOWN_FINDINGS.txt")}
 			args = append(args, st.Args...)
 			// timeout -s QUIT so that a hung child leaves a goroutine dump
 			targs := append([]string{"-s", "QUIT", "-k", "20", fmt.Sprintf("%d", int(to.Seconds())), binPath(st.Engine, st.Race)}, args...)
@@ -343,7 +343,7 @@ func check(prop, tier string) int {
 			return 2
 		}
 	}
-	findings := common.LoadFindings(filepath.Join(verifDir, "KNOWN_FINDINGS.jsonl"))
+	findings := common.LoadFindings(filepath.Join(verifDir, "KNOWN_FINDINGS.txt"))
 	isKnown := func(p, k string) (bool, string) {
 		for _, f := range findings {
 			if f.Status == "known" && f.Property == p && f.Key == k {
